@@ -142,8 +142,14 @@ pub struct DirInfo {
 }
 
 impl DirInfo {
+    /// Does the metadata claim that the index reflects this build's data? True when it reads as the
+    /// (version, hash) a clean start of this build records, or is byte for byte what a clean start
+    /// writes (so that a change of the file's format does not blind or falsely trip the invariant).
     pub fn meta_is_current(&self, r: &Reference) -> bool {
-        matches!(&self.meta, MetaInfo::Parsed { version: Some(v), hash: Some(h) } if *v == r.version && *h == r.hash)
+        if !r.version.is_empty() && matches!(&self.meta, MetaInfo::Parsed { version: Some(v), hash: Some(h) } if *v == r.version && *h == r.hash) {
+            return true;
+        }
+        !r.meta_text.is_empty() && self.meta_text.as_deref() == Some(r.meta_text.as_str())
     }
 
     /// short class string, without volatile details
